@@ -1,6 +1,7 @@
 package main
 
 import (
+	"strings"
 	"fmt"
 	"math/rand"
 
@@ -42,8 +43,17 @@ func init() {
 					}
 				}
 			}
+			// with history-autosuggest on there is something to suggest: an entry the buffer is the beginning of;
+			// the cursor is at the end of the buffer half of the time (where a movement reaches the suggestion)
+			suggest := strings.Contains(rc, "history-autosuggest") && !strings.Contains(buf, "\n") && len(buf) > 0
+			if suggest && r.Intn(2) == 0 {
+				pos = len([]rune(buf)) - r.Intn(2)
+			}
 			mk := func(op string) Spec {
 				sp := Spec{Prompt: "> ", Mode: "vi", Runs: 1, Inputrc: rc, Inject: []Inject{{Seq: `\C-x\C-y0`, Line: buf, Pos: pos}}}
+				if suggest {
+					sp.History = []string{buf + " and more words"}
+				}
 				keys := []string{"\x1b", "\x18\x190"}
 				if visual {
 					keys = append(keys, "v")
